@@ -232,6 +232,7 @@ func cmdC12Script(seed uint64, n int, dir string) {
 		diffProgram(st, "struct-program", src)
 	}
 	c12MethodGrowth(st, r)
+	c12NilFields(st, r, 6)
 	st.write(dir + "/C12_script_stats.json")
 }
 
@@ -334,5 +335,29 @@ func c12MethodGrowth(st *stats, r *rng) {
 				report("reload", c.fn+"(5) on the instance made before the reload", fmt.Sprint(c.want), got, h2)
 			}
 		}
+	}
+}
+
+// c12NilFields: a field holds the last value stored, TYPED as declared -- also when that value is nil: nil stored
+// into slice / map / pointer / func fields (through a local alias, a parameter, a receiver, a global, and a
+// composite-literal initialiser), then uses that depend on the field's type (printing, len, append + arithmetic on
+// the element, reading a missing map key, comparisons).  Compared with the Go toolchain.
+func c12NilFields(st *stats, r *rng, n int) {
+	for c := 0; c < n; c++ {
+		var sb strings.Builder
+		sb.WriteString("package main\n\nimport \"fmt\"\n\ntype N struct {\n\tid int\n}\n\ntype T struct {\n\tk  int\n\tfs []float64\n\tbs []uint8\n\tm  map[string]int\n\tp  *N\n\tfn func(int) int\n}\n\n")
+		sb.WriteString("func inc(a int) int {\n\treturn a + 1\n}\n\nfunc viaParam(t *T) {\n\tt.fs = nil\n\tt.m = nil\n}\n\nfunc (t *T) viaRecv() {\n\tt.bs = nil\n\tt.p = nil\n\tt.fn = nil\n}\n\nvar G = &T{k: 1, fs: []float64{1.5}, bs: []uint8{200}, m: map[string]int{\"a\": 1}, p: &N{id: 3}, fn: inc}\n\n")
+		sb.WriteString("func show(t *T) {\n\tfmt.Println(t.k, t.fs, len(t.fs), t.bs, len(t.bs), len(t.m), t.m[\"zz\"], t.p == nil, t.fn == nil)\n}\n\n")
+		sb.WriteString("func use(t *T) {\n\tt.fs = append(t.fs, 1)\n\tt.bs = append(t.bs, 200)\n\tfmt.Println(t.fs[len(t.fs)-1]/2, t.bs[len(t.bs)-1]+100)\n\tif t.m == nil {\n\t\tt.m = map[string]int{}\n\t}\n\tt.m[\"q\"] += 2\n\tfmt.Println(t.m[\"q\"], len(t.m))\n}\n\n")
+		sb.WriteString("func main() {\n\tt := &T{k: 2, fs: []float64{2.5, 3.5}, bs: []uint8{1, 2}, m: map[string]int{\"b\": 2}, p: &N{id: 4}, fn: inc}\n\tshow(t)\n\tshow(G)\n")
+		steps := []string{"t.fs = nil", "t.bs = nil", "t.m = nil", "t.p = nil", "t.fn = nil", "viaParam(t)", "t.viaRecv()", "G.fs = nil", "G.m = nil", "viaParam(G)", "G.viaRecv()",
+			"t = &T{k: 5, fs: nil, bs: nil, m: nil, p: nil, fn: nil}", "u := t\n\tu.fs = nil\n\tu.m = nil\n\t_ = u", "use(t)", "use(G)", "show(t)", "show(G)", "t.fs = []float64{4.5}", "t.m = map[string]int{\"c\": 3}"}
+		for k := 0; k < 6+r.intn(8); k++ {
+			sb.WriteString("\t" + pick(r, steps) + "\n")
+		}
+		sb.WriteString("\tshow(t)\n\tshow(G)\n\tuse(t)\n\tuse(G)\n\tshow(t)\n\tshow(G)\n}\n")
+		src := sb.String()
+		st.add("nil stored into typed fields", fmt.Sprintf("nil-field program %d", c))
+		diffProgram(st, "c12|nil-field", src)
 	}
 }
